@@ -177,6 +177,23 @@ func (e *Exec) safeStep(s *State) (res stepResult) {
 			case unsupportedErr:
 				e.h.pathEnded(e, s, pathEnd{"unsupported", x.msg + " at " + e.where(s)})
 				res = stepResult{kind: kEnd}
+			case needConcrete:
+				func() {
+					defer func() {
+						if r2 := recover(); r2 != nil {
+							switch y := r2.(type) {
+							case pathEnd:
+								e.h.pathEnded(e, s, y)
+							case unsupportedErr:
+								e.h.pathEnded(e, s, pathEnd{"unsupported", y.msg + " at " + e.where(s)})
+							default:
+								panic(r2)
+							}
+							res = stepResult{kind: kEnd}
+						}
+					}()
+					res = e.concretize(s, x)
+				}()
 			default:
 				panic(r)
 			}
@@ -489,15 +506,12 @@ func (e *Exec) step(s *State) stepResult {
 		if x.Len < n {
 			panic(goPanic{"slice to array pointer: length too short"})
 		}
-		if x.Off != 0 {
-			// pointer into the middle of an array object: materialise a view
-			panic(unsupported("SliceToArrayPointer with offset"))
-		}
 		arr := s.heap[x.Obj].(ArrayV)
-		if len(arr) != n {
-			panic(unsupported("SliceToArrayPointer on larger backing array"))
+		if x.Off == 0 && len(arr) == n {
+			e.set(f, in, PtrV{Obj: x.Obj})
+		} else {
+			e.set(f, in, ArrViewV{Obj: x.Obj, Off: x.Off, N: n})
 		}
-		e.set(f, in, PtrV{Obj: x.Obj})
 		f.ip++
 	case *ssa.Lookup:
 		return e.execLookup(s, f, in)
@@ -561,9 +575,68 @@ func (e *Exec) concreteInt(s *State, v Value, what string) int {
 		panic(unsupported(fmt.Sprintf("%s: %T", what, v)))
 	}
 	if !t.IsConst() {
-		panic(unsupported(what + " is symbolic"))
+		panic(needConcrete{t, what})
 	}
 	return int(t.Signed())
+}
+
+// needConcrete: an operation needs a concrete integer but got a symbolic one;
+// safeStep forks over the feasible values (bounded) and re-executes.
+type needConcrete struct {
+	t    *Term
+	what string
+}
+
+func (e *Exec) concretize(s *State, nc needConcrete) stepResult {
+	const maxVals = 40
+	t := nc.t
+	s.symStrN++
+	x := Var(fmt.Sprintf("conc!%d!%d", t.ID, s.symStrN), t.W)
+	base := append(append([]*Term(nil), s.pc...), Eq(x, t))
+	var vals []*Term
+	for len(vals) <= maxVals {
+		r := e.pf.Check(base, []*Term{x})
+		if r.Status == Unsat {
+			break
+		}
+		if r.Status != Sat {
+			panic(unsupported(nc.what + " is symbolic (solver could not enumerate its values)"))
+		}
+		v, ok := r.Model[x.Name]
+		if !ok {
+			v = new(big.Int)
+		}
+		c := BVBig(t.W, v)
+		vals = append(vals, c)
+		base = append(base, Not(Eq(x, c)))
+	}
+	if len(vals) > maxVals {
+		panic(unsupported(fmt.Sprintf("%s is symbolic with more than %d feasible values", nc.what, maxVals)))
+	}
+	if len(vals) == 0 {
+		panic(pathEnd{"infeasible", "no feasible value for " + nc.what})
+	}
+	var forks []*State
+	for i, c := range vals {
+		st := s
+		if i < len(vals)-1 {
+			st = s.clone()
+			e.h.States++
+		}
+		st.assume(Eq(t, c))
+		// substitute the constant for the term in the current frame
+		f := st.g().top()
+		for k, l := range f.locals {
+			if lt, ok := l.(*Term); ok && lt == t {
+				f.locals[k] = c
+			}
+		}
+		forks = append(forks, st)
+	}
+	if len(forks) == 1 {
+		return stepResult{kind: kCont}
+	}
+	return stepResult{kind: kForks, states: forks}
 }
 
 // ---------- control ----------
@@ -626,9 +699,18 @@ func (e *Exec) execIf(s *State, f *Frame, in *ssa.If) stepResult {
 }
 
 func (e *Exec) feasible(s *State, extra *Term) bool {
-	as := append(append([]*Term(nil), s.pc...), extra)
-	r := e.pf.Check(as, nil)
 	e.h.FeasQueries++
+	if extra.IsFalse() {
+		return false
+	}
+	if extra.IsTrue() {
+		r := e.pf.Check(s.pc, nil)
+		return r.Status != Unsat
+	}
+	// only the part of the path condition connected to extra matters (the path
+	// itself is assumed feasible; if it is not, the answer is irrelevant)
+	rel, _ := sliceRelevant(s.pc, []*Term{extra})
+	r := e.pf.Check(append(rel, extra), nil)
 	return r.Status != Unsat
 }
 
@@ -872,6 +954,12 @@ func (e *Exec) unop(s *State, f *Frame, in *ssa.UnOp) Value {
 	x := e.get(s, f, in.X)
 	switch in.Op {
 	case token.MUL: // load
+		if av, ok := x.(ArrViewV); ok {
+			arr := s.heap[av.Obj].(ArrayV)
+			out := make(ArrayV, av.N)
+			copy(out, arr[av.Off:av.Off+av.N])
+			return out
+		}
 		return s.load(e.ptr(x))
 	case token.NOT:
 		return Not(x.(*Term))
@@ -1339,6 +1427,10 @@ func (e *Exec) execIndexAddr(s *State, f *Frame, in *ssa.IndexAddr) stepResult {
 		base = v
 	case SliceV:
 		n = v.Len
+		off = v.Off
+		base = PtrV{Obj: v.Obj}
+	case ArrViewV:
+		n = v.N
 		off = v.Off
 		base = PtrV{Obj: v.Obj}
 	case PoisonV:
